@@ -87,6 +87,42 @@ def index_jobs(thorough, rng):
                 cells = tf if d.startswith("float") else ti
                 jobs.append({"kind": "I", "idx": idx, "par": par, "dtype": d, "sh": sh, "kw": n % 3 == 0,
                              "intpar": (n % 2 == 0) if len(ent) < 3 else ent[2], "cells": cells})
+    # ---- input variation: a different dtype and memory layout per band, dims named lat/lon or row/col, keyword
+    # arguments in permuted order, parameters as Python ints / floats / np.float64, integer and float64 inputs that are
+    # not float32 numbers ("dirty": the cast must happen before any arithmetic), unsigned bands whose difference is
+    # negative (already in every tuple space: nir < red)
+    patterns = [["C", "C", "C"], ["F", "F", "F"], ["C", "F", "S"], ["T", "R", "C"], ["S", "S", "S"]]
+    mixes = [["uint8", "float64", "int16"], ["float32", "uint16", "uint64"], ["int64", "int8", "float16"],
+             ["uint32", "uint32", "float64"], ["float64", "float32", "float64"], ["uint64", "int32", "uint8"]]
+    dimsets = [["lat", "lon"], ["row", "col"], ["y", "x"]]
+    v = 0
+    for idx in IDX10:
+        ar = ARITY[idx]
+        tf = [list(t) for t in itertools.product([0, 1, 2, 3, 4, 5, 6, "nan"], repeat=ar)]
+        ti = [list(t) for t in itertools.product([0, 1, 2, 3, 4, 5, 6], repeat=ar)]
+        pars = pars_of(idx, thorough)
+        for r in range(len(mixes) if thorough else 3):
+            v += 1
+            mix = mixes[(v + r) % len(mixes)][:ar]
+            par = pars[(7 * v) % len(pars)]
+            allfloat = all(d.startswith("float") for d in mix)
+            jobs.append({"kind": "I", "idx": idx, "par": par, "dtype": mix[0], "dtypes": mix,
+                         "layouts": patterns[v % len(patterns)][:ar], "dims": dimsets[v % 3], "sh": 0,
+                         "kw": [False, True, "perm"][v % 3], "parmode": ["float", "int", "np64"][(v // 2) % 3],
+                         "cells": tf if allfloat else ti})
+        # same dtype, every layout pattern, permuted keywords
+        for k, pat in enumerate(patterns[1:]):
+            v += 1
+            jobs.append({"kind": "I", "idx": idx, "par": pars[(3 * v) % len(pars)], "dtype": "float64",
+                         "layouts": pat[:ar], "dims": dimsets[v % 3], "sh": 0, "kw": "perm" if k % 2 else False,
+                         "parmode": "np64", "cells": tf})
+        # values that are not float32 numbers, at the integer edge and in float64
+        if scale_invariant(idx, pars[0]) or idx == "ebbi":
+            for d, sh in [("int32", 28), ("uint64", 60), ("float64", 0)] + ([("int64", 60), ("uint32", 28)] if thorough else []):
+                v += 1
+                jobs.append({"kind": "I", "idx": idx, "par": [p for p in pars if scale_invariant(idx, p) or idx == "ebbi"][0],
+                             "dtype": d, "sh": sh, "dirty": True, "kw": v % 2 == 0, "parmode": "float",
+                             "layouts": patterns[v % len(patterns)][:ar], "cells": tf if d == "float64" else ti})
     # signed bands (negative radicands of EBBI, negative denominators) on signed dtypes
     for idx in IDX10:
         ts = [list(t) for t in itertools.product([-3, -2, -1, 0, 1, 2, 3], repeat=ARITY[idx])]
@@ -145,7 +181,8 @@ def color_jobs(rng, thorough):
             if dt.startswith("float"):
                 g[1] = "nan"
             jobs.append({"kind": "T", "red": red, "green": g, "blue": b, "nodata": nodata, "dtype": dt,
-                         "W": rng.choice([3, 4, 6])})
+                         "W": rng.choice([3, 4, 6]), "c": rng.choice([None, 10.0, 1, 25.5, 0]),
+                         "th": rng.choice([None, 0.125, 0, 0.5, 1])})
     # bands without spread (min == max: the contrast stretch of that band is undefined), constant with NaN holes,
     # 1x1 / 1xN / Nx1 rasters: alpha depends on the RAW red band only
     for dt in ["float64", "float32", "uint8", "int32"]:
